@@ -265,6 +265,9 @@ func runCheck(o checkOpts) int {
 			if r != nil && r.Ob.AltGrp != "" {
 				isKnown = true // alternatives are expected to fail except one
 			}
+			if os.Getenv("GVC_NORETRY") != "" {
+				isKnown = true
+			}
 			if r != nil && r.Status == "undecided" && retried < 6 && !isKnown {
 				retried++
 				dir := filepath.Join(workRoot, sanitize(rep.Key))
